@@ -189,6 +189,12 @@ def judge(run, cases, rows, verbose=False):
                             theorem="correspondence harness c08", found_input=False)
                 continue
             run.cov["history_events"] = run.cov.get("history_events", 0) + 1
+            if o.get("unloaded"):
+                run.failing({"kind": "written-not-reloaded", "dep": ev.get("dep"), "op": (ev.get("op") or "").split(":")[0], "batch": bool(ev.get("batch"))}, [slim(c)],
+                            "after the %s event on %s %s/%s (batch of %d other tasks, position %d) the file on disk was never loaded: NGINX still runs the configuration from before "
+                            "(case %d, gen=%s, reloads during the event: %s)" % (ev.get("op"), ev.get("dep"), ev.get("ns"), ev.get("name"), ev.get("batch") or 0, ev.get("at") or 0,
+                                                                                 c["id"], json.dumps(c.get("gen")), o.get("reloads")),
+                            theorem="history: what NGINX runs after the queue drained must be the configuration written", found_input=False)
             if o.get("stale"):
                 run.failing({"kind": "live-config-stale", "dep": ev.get("dep"), "op": (ev.get("op") or "").split(":")[0]}, [slim(c)],
                             "after the %s event on %s %s/%s the configuration NGINX holds differs from what a fresh rendering of the same state gives "
@@ -340,7 +346,7 @@ def check(run):
                        "same kind, and three positions with a second reference of the SAME NAME in another namespace: usable default/<name> then unusable other/<name>, usable "
                        "other/<name> then unusable default/<name>, unusable first) x edition (OSS, Plus): ALL combinations, each through the real Configuration, createVirtualServerEx, Configurator and template; route shape "
                        "(pass, splits, matches, return, gRPC upstream, pass with error pages for 500/502/503) drawn per case.  vstls / ing: VirtualServer, regular Ingress and master+minion hosts x 15 TLS secret states (incl. created-then-deleted); Ingress JWT / "
-                       "basic auth (on the Ingress, the master, the minion) x 13 secret states.  internal routes of NGINX Service Mesh (spec.internalRoute / nsm.nginx.com/internal-route with -enable-internal-routes) x the same TLS states.  history: the resource is first rendered with every dependency usable by the REAL controller (production constructor, fake clientsets, the harness plays the informers); then ONE dependency changes -- Policy deleted / made invalid / moved to a foreign class; every policy Secret, the VirtualServer / Ingress TLS Secret (plain and internal route), the Ingress JWT / basic-auth Secret deleted / made invalid / emptied / re-created with another supported type / with an unsupported type; the same TLS Secret events when the Secret the host names is ALSO the controller's wildcard or default-server TLS Secret (special secrets); APPolicy and APLogConf deleted / made invalid (also each of three APLogConfs of one securityLogs list) -- delivered through the real informer handler of the kind and the real lbc.sync (syncPolicy, syncSecret, syncAppProtectPolicy, syncAppProtectLogConf); S is evaluated on the file the nginx.Manager holds AFTER the event, for every kind x scope.  random: 1-2 routes + optional VirtualServerRoute with 1-2 subroutes, 0-6 "
+                       "basic auth (on the Ingress, the master, the minion) x 13 secret states.  internal routes of NGINX Service Mesh (spec.internalRoute / nsm.nginx.com/internal-route with -enable-internal-routes) x the same TLS states.  history: the resource is first rendered with every dependency usable by the REAL controller (production constructor, fake clientsets, the harness plays the informers); then ONE dependency changes -- Policy deleted / made invalid / moved to a foreign class; every policy Secret, the VirtualServer / Ingress TLS Secret (plain and internal route), the Ingress JWT / basic-auth Secret deleted / made invalid / emptied / re-created with another supported type / with an unsupported type; the same TLS Secret events when the Secret the host names is ALSO the controller's wildcard or default-server TLS Secret (special secrets); APPolicy and APLogConf deleted / made invalid (also each of three APLogConfs of one securityLogs list) -- delivered through the real informer handler of the kind and the real lbc.sync (syncPolicy, syncSecret, syncAppProtectPolicy, syncAppProtectLogConf); the Secret events also inside a BATCH (the event and two Secrets nobody uses queued together, event first / last, drained by the loop of the real worker so that the real batch bookkeeping of sync holds reloads back); S is evaluated on what NGINX RUNS after the queue drained (the files as snapshotted by the manager at the last Reload), for every kind x scope.  random: 1-2 routes + optional VirtualServerRoute with 1-2 subroutes, 0-6 "
                        "references per scope from a pool of 18 policy names present in two namespaces in independent random states (same name in both namespaces in one list included), Secrets also created-then-deleted.  A case is distinct by its world; non-trivial = some scope must fail or TLS must reject.")
     run.cov["trusted_base"] = TRUSTED
     run.assumptions += ["NGINX itself is not run (no binary): that return in the rewrite phase pre-empts proxy_pass and that ssl_reject_handshake rejects is NGINX semantics, trusted",
